@@ -118,6 +118,11 @@ Definition acl_serve (s : ipset) (internal : bool) (src : option addr) : acl_out
   | Some a => if set_contains s a then AclNext else AclDrop
   end.
 
+(* accesslist.New: an EMPTY configured list means the open default (0.0.0.0/0, ::/0);
+   a non-empty list whose entries all fail to parse stays empty = deny everything *)
+Definition acl_effective (n_entries : N) (ps : list prefix) : list prefix :=
+  if n_entries =? 0 then [mk_prefix true 0 0%Z; mk_prefix false 0 0%Z] else ps.
+
 (* views: index of the first view whose networks contain the client *)
 Fixpoint first_view (views : list ipset) (a : addr) (i : nat) : option nat :=
   match views with
